@@ -48,6 +48,10 @@ def cases(ctx):
         idx_p = np.where(rng.random(m) < 0.6, idx_l, rng.integers(0, K, m))
         wk = int(rng.integers(0, 3))
         w = None if wk == 0 else (rng.integers(1, 5, m) if wk == 1 else rng.uniform(0.1, 3, m))
+        if wk == 1 and i % 5 == 2:
+            # integer weights in very fine base units (or one aggregated stratum of 1e16 beside ordinary samples): integer cells are exact totals,
+            # also beyond 2**53
+            w = rng.integers(10 ** 15, 10 ** 16, m) * 2 + 1 if rng.random() < 0.5 else np.where(rng.random(m) < 0.2, 10 ** 16 + 1, rng.integers(1, 9, m)).astype(np.int64)
         lead = tuple(int(x) for x in rng.integers(0, 3, int(rng.integers(0, 3))))
         M = rng.integers(0, 9, (*lead, K, K)) if rng.random() < 0.5 else rng.uniform(0, 5, (*lead, K, K))
         if rng.random() < 0.2:  # weights / entries of another magnitude (importance weights of 1e-12, populations of 1e12): exact power-of-two scaling
@@ -87,6 +91,14 @@ def execute(ctx, case):
     at_ = 1e-12 * (float(np.abs(ref).max()) or 1.0)  # relative to the magnitude of the weights (importance weights of 1e-18 are data, too)
     C(cm.matrix.shape == (K, K) and np.allclose(cm.matrix, ref, rtol=1e-12, atol=at_), "matrix entry [i,j] is not the total weight of (label i, prediction j)", "cmx-build", got=cm.matrix, expected=ref)
     C(list(cm.classes) == order, "classes are not in the requested order", "cmx-classes", got=list(cm.classes))
+    if w is not None and np.asarray(w).dtype.kind in "iu":
+        # integer weights: every cell is an exact integer total (Python integers as the reference, no float in between)
+        exact = [[0] * K for _ in range(K)]
+        for i, (l, p) in enumerate(zip(lab, pred)):
+            exact[order.index(l)][order.index(p)] += int(w[i])
+        got_int = [[int(v) for v in row] for row in np.asarray(cm.matrix).tolist()]
+        C(np.asarray(cm.matrix).dtype.kind in "iu" and got_int == exact and int(cm.pop()) == sum(int(v) for v in np.asarray(w).tolist()),
+          "integer-weighted matrix is not the exact integer total per cell / pop() is not the total weight", "cmx-build-exact", got=got_int, expected=exact)
     # the same samples handed over in other containers: lists, tuples, pandas Series with a non-default index (a column of a
     # sorted / shuffled / filtered frame) - positions are what pairs label, prediction and weight, never index labels
     m_ = len(lab)
